@@ -73,9 +73,9 @@ type World struct {
 	gated   atomic.Bool
 	clients map[string]*Client
 	https   map[string]*httpReq
-	marks   map[string][]Rec  // unfilled frame marks per client
+	marks   map[string][]Rec    // unfilled frame marks per client
 	evIDs   map[interface{}]int // resource event / subscription pointer -> id
-	cidSym  map[string]string // real cid -> symbolic id
+	cidSym  map[string]string   // real cid -> symbolic id
 	symCID  map[string]string
 	pendSym string // symbolic id to bind to the next conn.* subscription
 
